@@ -446,6 +446,11 @@ impl<'a, B: Backend> Exec<'a, B> {
             for (c, _) in &findings {
                 self.foreign.inc(c);
             }
+            // Another property's oracle fired. From here on this check must judge ITS property against the
+            // pool as it actually is, not against a reference that has drifted away from it (otherwise every
+            // later step would be blamed for the first divergence): the model takes over the implementation's
+            // contents, order, admission times, snapshot marks and budget state.
+            self.resync_model_from_dump();
         }
         let out = if let Step::Stats { .. } = step { Outcome::Stats(stats) } else { out };
 
@@ -629,6 +634,36 @@ impl<'a, B: Backend> Exec<'a, B> {
             self.probes.inc("bucket_limit_rejects_valid_proof");
         }
         Outcome::Push { accepted, decision }
+    }
+
+    fn resync_model_from_dump(&mut self) {
+        let dump = self.be.pool().verif_dump();
+        let mut buckets: BTreeMap<BatchKey, MBucket> = BTreeMap::new();
+        for db in dump.buckets.iter().filter(|b| !b.entries.is_empty()) {
+            let mut mb = MBucket { entries: vec![], last_snapshot: db.last_snapshot_at.map(|i| ns(i, self.base)) };
+            for de in &db.entries {
+                let Some(parsed) = model::parse_proof(de.proof, self.params.n) else { continue };
+                let msg = match self.messages.iter().position(|m| m == de.proof) {
+                    Some(i) => i,
+                    None => {
+                        self.messages.push(de.proof.clone());
+                        self.messages.len() - 1
+                    }
+                };
+                mb.entries.push(MEntry { msg, parsed, admitted: ns(de.admitted_at, self.base) });
+            }
+            if !mb.entries.is_empty() {
+                buckets.insert(db.key, mb);
+            }
+        }
+        self.model.buckets = buckets;
+        // "budget remains" is one of C19's admission rules, so the admission check keeps its own window
+        // state by the documented rules; the other checks take over the implementation's
+        if FOCUS_PREFIX.get().map(|s| s.as_str()) != Some("admit:") {
+            self.model.window_start = ns(dump.verify_window_started, self.base);
+            self.model.verifies = dump.verifies_in_window;
+        }
+        self.probes.inc("model_resynced_after_another_propertys_finding");
     }
 
     /// O-state / O-custody: the dump equals the model.
